@@ -12,7 +12,11 @@ _counter = itertools.count()
 
 def load(src, extra_globals=None, register=True, flags=0, modname='verifgen'):
     """exec `src` in a fresh globals dict; returns the dict."""
-    fn = '<verif-gen-%d>' % next(_counter)
+    n = next(_counter)
+    fn = '<verif-gen-%d>' % n
+    # code objects compare equal across compilations of the same text (the file name is not part of the comparison): every
+    # load starts at another line so that no two generated functions are interchangeable as dictionary keys
+    src = '\n' * (n % 997) + src
     if register:
         linecache.cache[fn] = (len(src), None, src.splitlines(True), fn)
     g = {'__name__': modname, 'functools': functools}
